@@ -647,9 +647,15 @@ impl ISocket for RouterSocket {
         .strategy
         .prepare_wire_frames(destination_identity_msg, frames, &self.framing);
 
-    // Final flag setting on the last frame
-    if let Some(last_frame) = zmtp_wire_frames.last_mut() {
-      last_frame.set_flags(last_frame.flags() & !MsgFlags::MORE);
+    // Normalise the MORE flags: set on every frame but the last, whatever the caller had
+    // set - otherwise a frame without MORE in the middle splits the message at the peer.
+    let frame_count = zmtp_wire_frames.len();
+    for (i, frame) in zmtp_wire_frames.iter_mut().enumerate() {
+      if i + 1 < frame_count {
+        frame.set_flags(frame.flags() | MsgFlags::MORE);
+      } else {
+        frame.set_flags(frame.flags() & !MsgFlags::MORE);
+      }
     }
 
     // 5. Send the message.
